@@ -1,6 +1,7 @@
 (* Property C04 — theorems only. Each is closed by [exact] and followed by Print Assumptions. *)
 From Coq Require Import List NArith ZArith Bool.
-From RopeVerif.C04 Require Import Inline InlineProofs Expr ExprProofs Call CallProofs.
+From RopeVerif.Lib Require Import Text.
+From RopeVerif.C04 Require Import Inline InlineProofs Expr ExprProofs Call CallProofs Receiver ReceiverProofs.
 Import ListNotations.
 
 (* ------------------------------------------------------------------------------------------------
@@ -210,3 +211,22 @@ Example C04_call_params_subst_nontrivial :
           SPrint [nmv 9; [(false, [AVar 11; ANum 2])]]].
 Proof. exact call_params_subst_nontrivial. Qed.
 Print Assumptions C04_call_params_subst_nontrivial.
+
+(* ------------------------------------------------------------------------------------------------
+   Method calls: the implicit argument that CallInfo.read puts in front of the arguments of
+   `recv.name(...)` is the whole receiver text (stripped), whatever the number of dots in it: this is what
+   Python binds to `self`.  (The text model of the computation is compared with rope's CallInfo.args on every
+   generated call site, receivers being attribute chains of depth 1 to 4.) *)
+Theorem C04_receiver_full :
+  forall recv name pos,
+    existsb (N.eqb dot) name = false ->
+    implicit_receiver true (recv ++ dot :: name) = Some (strip recv) /\
+    read_args true (recv ++ dot :: name) pos = strip recv :: pos.
+Proof. exact (fun recv name pos H => conj (receiver_full recv name H) (read_args_full recv name pos H)). Qed.
+Print Assumptions C04_receiver_full.
+
+Example C04_receiver_chain :
+  implicit_receiver true [97;112;112;46;104;117;98;46;115;116;111;114;101;46;103;101;116]%N
+  = Some [97;112;112;46;104;117;98;46;115;116;111;114;101]%N.
+Proof. exact receiver_chain. Qed.
+Print Assumptions C04_receiver_chain.
